@@ -23,6 +23,8 @@ pub enum Header {
     None,
     V1(u8),
     V2(u8),
+    /// version 2 with the DGRAM transport nibble (still a valid header that announces the addresses)
+    V2Dgram(u8),
     V2Local,
     V1Unknown,
     Malformed(u8),
@@ -90,17 +92,18 @@ fn decide(case: &Case, info: &mut CaseInfo) -> Verdict {
             Header::None => vec![],
             Header::V1(s) => net::proxy_v1(SOURCES[*s as usize % SOURCES.len()].parse().unwrap(), dst),
             Header::V2(s) => net::proxy_v2(SOURCES[*s as usize % SOURCES.len()].parse().unwrap(), dst),
+            Header::V2Dgram(s) => net::proxy_v2_transport(SOURCES[*s as usize % SOURCES.len()].parse().unwrap(), dst, true),
             Header::V2Local => net::proxy_v2_local(),
             Header::V1Unknown => b"PROXY UNKNOWN\r\n".to_vec(),
             Header::Malformed(k) => malformed(*k),
         };
         let expect = match (case.proxy, &conn.header) {
             (None, _) => Expect::Effective(peer),
-            (Some((true, _)), Header::V1(s)) | (Some((_, true)), Header::V2(s)) => Expect::Effective(SOURCES[*s as usize % SOURCES.len()].parse().unwrap()),
+            (Some((true, _)), Header::V1(s)) | (Some((_, true)), Header::V2(s) | Header::V2Dgram(s)) => Expect::Effective(SOURCES[*s as usize % SOURCES.len()].parse().unwrap()),
             (Some((_, true)), Header::V2Local) | (Some((true, _)), Header::V1Unknown) => Expect::Effective(peer),
             (Some(_), _) => Expect::Unserved,
         };
-        if let (Some(_), Header::V1(s) | Header::V2(s)) = (case.proxy, &conn.header) {
+        if let (Some(_), Header::V1(s) | Header::V2(s) | Header::V2Dgram(s)) = (case.proxy, &conn.header) {
             sources_seen.insert(*s as usize % SOURCES.len());
             peers_seen.insert(conn.peer % 3);
         }
@@ -230,6 +233,7 @@ impl Check for C15 {
                     prop_oneof![
                         5 => (0u8..6).prop_map(Header::V1),
                         5 => (0u8..6).prop_map(Header::V2),
+                        2 => (0u8..6).prop_map(Header::V2Dgram),
                         1 => Just(Header::V2Local),
                         1 => Just(Header::V1Unknown),
                         1 => Just(Header::None),
